@@ -12,6 +12,8 @@ pub mod lemmas {
     use super::spec::*;
     use super::fastq::{c1, c2, c3, c4, g_head, g_seq, g_qual, vok, group_complete, gstart, end_ok, may_accept, same_term, trimmed_eq,
                        g_seq_cr, g_qual_cr, ends_cr, fq_render};
+    use super::fasta::{lfs, first_nonblank, fa_bnd, fa_start, fa_lines, fa_rec_head, fa_rec_lines, lemma_lfs_skip, lemma_lfs_bounds,
+                       lemma_fnb_here, lemma_fnb_skip, lemma_fnb_tail, concat, fa_head_r, fa_render, wrap_lines};
     verus! {
 
     // ---------------------------------------------------------------------------------------------
@@ -258,6 +260,38 @@ pub mod lemmas {
         assert(ls[4 * k + 2][0] == 43u8);
     }
 
+    /// what the rules read at the offset of record k (no induction)
+    proof fn lemma_fastq_fields(rs: Seq<FqRec>, crlf: bool, fin: bool, k: int)
+        requires fq_fields_ok(rs), 0 <= k < rs.len()
+        ensures ({
+            let f = fq_text(rs, crlf, fin); let p = fq_off(rs, crlf, fin, k);
+            &&& group_complete(f, p) && vok(f, p)
+            &&& g_head(f, p) == rs[k].head && g_seq(f, p) == rs[k].seq && g_qual(f, p) == rs[k].qual
+            &&& true_line(f, p) == 4 * k + 1
+            &&& (k + 1 < rs.len() ==> c4(f, p) + 1 == fq_off(rs, crlf, fin, k + 1))
+            &&& (k + 1 == rs.len() ==> c4(f, p) + 1 >= f.len())
+        })
+    {
+        let f = fq_text(rs, crlf, fin);
+        let p = fq_off(rs, crlf, fin, k);
+        lemma_fq_record(rs, crlf, fin, k);
+        // header: the line without its first byte
+        let raw0 = f.subrange(p, c1(f, p));
+        assert(raw0[0] == f[p]);
+        lemma_trim_drop_first(raw0);
+        assert(raw0.subrange(1, raw0.len() as int) =~= f.subrange(p + 1, c1(f, p)));
+        assert((seq![64u8] + rs[k].head).subrange(1, rs[k].head.len() as int + 1) =~= rs[k].head);
+        // length verdict
+        assert(may_accept(f, p)) by { reveal(may_accept); }
+        if k + 1 == rs.len() {
+            lemma_full_len0(fq_lines(rs), uniform(4 * rs.len(), crlf, fin), fin);
+            lemma_fq_line(rs, k);
+        }
+    }
+    proof fn lemma_full_len0(ls: Seq<Seq<u8>>, cr: Seq<bool>, fin: bool)
+        ensures off(ls, cr, fin, ls.len() as int) == full(ls, cr, fin).len()
+    { }
+
     /// the k-th record of the text: where it starts, what the rules read there, which line it is on
     pub proof fn lemma_fastq_text(rs: Seq<FqRec>, crlf: bool, fin: bool, k: int)
         requires fq_fields_ok(rs), 0 <= k < rs.len()
@@ -273,22 +307,608 @@ pub mod lemmas {
         decreases k
     {
         let f = fq_text(rs, crlf, fin);
-        let p = fq_off(rs, crlf, fin, k);
-        lemma_fq_record(rs, crlf, fin, k);
-        // header: the line without its first byte
-        let raw0 = f.subrange(p, c1(f, p));
-        assert(raw0[0] == f[p]);
-        lemma_trim_drop_first(raw0);
-        assert(raw0.subrange(1, raw0.len() as int) =~= f.subrange(p + 1, c1(f, p)));
-        assert((seq![64u8] + rs[k].head).subrange(1, rs[k].head.len() as int + 1) =~= rs[k].head);
-        // length verdict
-        assert(may_accept(f, p)) by { reveal(may_accept); }
-        // position in the stream
+        lemma_fastq_fields(rs, crlf, fin, k);
         if k == 0 {
-            lemma_off_step(fq_lines(rs), uniform(4 * rs.len(), crlf, fin), fin, 0);
+            assert(fq_off(rs, crlf, fin, 0) == 0);
         } else {
             lemma_fastq_text(rs, crlf, fin, k - 1);
+            assert(gstart(f, 0, k) == c4(f, gstart(f, 0, k - 1)) + 1);
         }
+    }
+
+    /// C12, FASTQ, in one statement: the LF text and the CRLF text of the same records, each with or without a final terminator,
+    /// are read as the same record at the same line
+    pub proof fn lemma_fastq_lf_crlf_agree(rs: Seq<FqRec>, fin1: bool, fin2: bool, k: int)
+        requires fq_fields_ok(rs), 0 <= k < rs.len()
+        ensures
+            [C12|lemma.fastq_lf_crlf.same_fields] ({
+                let (f1, p1, f2, p2) = (fq_text(rs, false, fin1), fq_off(rs, false, fin1, k), fq_text(rs, true, fin2), fq_off(rs, true, fin2, k));
+                p1 == gstart(f1, 0, k) && p2 == gstart(f2, 0, k)
+                && g_head(f1, p1) == g_head(f2, p2) && g_seq(f1, p1) == g_seq(f2, p2) && g_qual(f1, p1) == g_qual(f2, p2)
+                && vok(f1, p1) && vok(f2, p2) && group_complete(f1, p1) && group_complete(f2, p2)
+            }),
+            [C12|lemma.fastq_lf_crlf.same_line] true_line(fq_text(rs, false, fin1), fq_off(rs, false, fin1, k)) == true_line(fq_text(rs, true, fin2), fq_off(rs, true, fin2, k)),
+            [C12|lemma.fastq_lf_crlf.no_cr_in_fields] !ends_cr(g_seq(fq_text(rs, true, fin2), fq_off(rs, true, fin2, k))) && !ends_cr(g_qual(fq_text(rs, true, fin2), fq_off(rs, true, fin2, k))),
+    {
+        lemma_fastq_text(rs, false, fin1, k);
+        lemma_fastq_text(rs, true, fin2, k);
+    }
+
+    // ---------------------------------------------------------------------------------------------
+    // C11 (FASTQ): what the writer contracts say is written, fq_render(h, s, q) record after record, is the LF text of those
+    // records (separator line "+", final terminator present), so by lemma_fastq_text it is read back field by field
+    // ---------------------------------------------------------------------------------------------
+    pub open spec fn fq_render_all(rs: Seq<FqRec>, n: int) -> Seq<u8>
+        decreases n
+    {
+        if n <= 0 { Seq::<u8>::empty() } else { fq_render_all(rs, n - 1) + fq_render(rs[n - 1].head, rs[n - 1].seq, rs[n - 1].qual) }
+    }
+    pub open spec fn plain_sep(rs: Seq<FqRec>) -> bool { forall|k: int| 0 <= k < rs.len() ==> (#[trigger] rs[k]).sep.len() == 0 }
+
+    proof fn lemma_render_is_text(rs: Seq<FqRec>, n: int)
+        requires 0 <= n <= rs.len(), plain_sep(rs)
+        ensures fq_render_all(rs, n) == text(fq_lines(rs), uniform(4 * rs.len(), false, true), true, 4 * n)
+        decreases n
+    {
+        let ls = fq_lines(rs); let cr = uniform(4 * rs.len(), false, true);
+        if n > 0 {
+            lemma_render_is_text(rs, n - 1);
+            lemma_fq_line(rs, n - 1);
+            let t0 = text(ls, cr, true, 4 * n - 4);
+            let lf = seq![10u8];
+            assert(term(false, true) =~= lf);
+            assert(text(ls, cr, true, 4 * n - 3) == t0 + ls[4 * n - 4] + lf);
+            assert(text(ls, cr, true, 4 * n - 2) == text(ls, cr, true, 4 * n - 3) + ls[4 * n - 3] + lf);
+            assert(text(ls, cr, true, 4 * n - 1) == text(ls, cr, true, 4 * n - 2) + ls[4 * n - 2] + lf);
+            assert(text(ls, cr, true, 4 * n) == text(ls, cr, true, 4 * n - 1) + ls[4 * n - 1] + lf);
+            let r = rs[n - 1];
+            assert(seq![43u8] + r.sep =~= seq![43u8]);
+            assert(t0 + (seq![64u8] + r.head) + lf + r.seq + lf + seq![43u8] + lf + r.qual + lf
+                   =~= t0 + (seq![64u8] + r.head + seq![10u8] + r.seq + seq![10u8, 43u8, 10u8] + r.qual + seq![10u8]));
+        }
+    }
+
+    /// written records are read back: the k-th record of the rendered text is exactly (head, seq, qual) of the k-th record written
+    pub proof fn lemma_fastq_roundtrip(rs: Seq<FqRec>, k: int)
+        requires fq_fields_ok(rs), plain_sep(rs), 0 <= k < rs.len()
+        ensures
+            [C11|lemma.fastq_roundtrip] ({
+                let f = fq_render_all(rs, rs.len() as int); let p = gstart(f, 0, k);
+                group_complete(f, p) && vok(f, p) && g_head(f, p) == rs[k].head && g_seq(f, p) == rs[k].seq && g_qual(f, p) == rs[k].qual
+                && (k + 1 == rs.len() ==> end_ok(f, c4(f, p) + 1))
+            }),
+    {
+        lemma_render_is_text(rs, rs.len() as int);
+        lemma_fastq_text(rs, false, true, k);
+    }
+
+
+    // ---------------------------------------------------------------------------------------------
+    // C12 (FASTA): the rule functions read the records back from a text given as lines, for every per-line mixture of LF and
+    // CRLF endings, with or without a terminator after the last line
+    // ---------------------------------------------------------------------------------------------
+    pub open spec fn hdr(l: Seq<u8>) -> bool { l.len() > 0 && l[0] == 62u8 }
+    /// lines [i, j) are one record: header at i, no header inside, and j is the end of the text or the next header
+    pub open spec fn fa_rec_at(ls: Seq<Seq<u8>>, i: int, j: int) -> bool {
+        &&& 0 <= i < j <= ls.len() && hdr(ls[i])
+        &&& forall|m: int| i < m < j ==> !hdr(#[trigger] ls[m])
+        &&& (j < ls.len() ==> hdr(ls[j]))
+    }
+    /// offset of the end of line m: its LF, or the end of the text if it has none
+    pub open spec fn line_end(ls: Seq<Seq<u8>>, cr: Seq<bool>, fin: bool, m: int) -> int {
+        if m + 1 < ls.len() || fin { off(ls, cr, fin, m + 1) - 1 } else { off(ls, cr, fin, m + 1) }
+    }
+    /// an unterminated last line is not empty (otherwise the text is that of the list without it)
+    pub open spec fn fa_text_ok(ls: Seq<Seq<u8>>, cr: Seq<bool>, fin: bool) -> bool {
+        lines_ok(ls, cr, fin) && (!fin && ls.len() > 0 ==> ls[ls.len() - 1].len() > 0)
+    }
+
+    proof fn lemma_full_len(ls: Seq<Seq<u8>>, cr: Seq<bool>, fin: bool)
+        ensures off(ls, cr, fin, ls.len() as int) == full(ls, cr, fin).len()
+    { }
+
+    /// scanning for the next record boundary from the start of line m (m is the header line or a later line of the record)
+    proof fn lemma_fa_bnd_lines(ls: Seq<Seq<u8>>, cr: Seq<bool>, fin: bool, m: int, j: int)
+        requires fa_text_ok(ls, cr, fin), 0 <= m < j <= ls.len(),
+                 forall|x: int| m < x < j ==> !hdr(#[trigger] ls[x]), j < ls.len() ==> hdr(ls[j])
+        ensures fa_bnd(full(ls, cr, fin), off(ls, cr, fin, m)) == (if j < ls.len() { off(ls, cr, fin, j) } else { full(ls, cr, fin).len() as int })
+        decreases j - m
+    {
+        let f = full(ls, cr, fin);
+        lemma_line_rules(ls, cr, fin, m);
+        lemma_full_len(ls, cr, fin);
+        let k = nl(f, off(ls, cr, fin, m));
+        if m + 1 < ls.len() {
+            assert(k + 1 == off(ls, cr, fin, m + 1));
+            lemma_line_at(ls, cr, fin, m + 1);
+            lemma_line_rules(ls, cr, fin, m + 1);
+            if m + 1 == j {
+                assert(f[k + 1] == 62u8);
+            } else {
+                // line m+1 is not a header: its first byte, if it has one, is not '>'; an empty line starts with its terminator
+                let o = off(ls, cr, fin, m + 1);
+                if ls[m + 1].len() > 0 {
+                    assert(f[o] == ls[m + 1][0]);
+                } else if o < f.len() {
+                    assert(f[o] == 13u8 || f[o] == 10u8) by {
+                        if cr[m + 1] { assert(f[o + 0] == 13u8); } else { assert(f[off(ls, cr, fin, m + 2) - 1] == 10u8); }
+                    }
+                }
+                if k + 1 < f.len() { lemma_fa_bnd_lines(ls, cr, fin, m + 1, j); }
+                else {
+                    // an empty, unterminated last line cannot exist (fa_text_ok)
+                    lemma_off_step(ls, cr, fin, m + 1);
+                    lemma_text_prefix(ls, cr, fin, m + 2, ls.len() as int);
+                }
+            }
+        }
+    }
+
+    /// the LFs between the starts of lines i and m are the ends of lines i..m-1 (all of them terminated)
+    proof fn lemma_lfs_lines(ls: Seq<Seq<u8>>, cr: Seq<bool>, fin: bool, i: int, m: int)
+        requires lines_ok(ls, cr, fin), 0 <= i <= m <= ls.len(), m == ls.len() ==> fin
+        ensures lfs(full(ls, cr, fin), off(ls, cr, fin, i), off(ls, cr, fin, m)) == Seq::new((m - i) as nat, |t: int| off(ls, cr, fin, i + t + 1) - 1)
+        decreases m - i
+    {
+        let f = full(ls, cr, fin);
+        let want = Seq::new((m - i) as nat, |t: int| off(ls, cr, fin, i + t + 1) - 1);
+        if m == i {
+            assert(lfs(f, off(ls, cr, fin, i), off(ls, cr, fin, m)) =~= want);
+        } else {
+            lemma_lfs_lines(ls, cr, fin, i, m - 1);
+            lemma_line_rules(ls, cr, fin, m - 1);
+            lemma_text_prefix(ls, cr, fin, i, m - 1);
+            let (a, b0, b1) = (off(ls, cr, fin, i), off(ls, cr, fin, m - 1), off(ls, cr, fin, m));
+            lemma_nl_bounds(f, b0);
+            assert(nl(f, b0) == b1 - 1);
+            lemma_lfs_skip(f, a, b0, b1 - 1);
+            assert(lfs(f, a, b1) == lfs(f, a, b1 - 1).push(b1 - 1));
+            assert(lfs(f, a, b1) =~= want);
+        }
+    }
+
+    /// line ends of the record on lines [i, j)
+    proof fn lemma_fa_line_ends(ls: Seq<Seq<u8>>, cr: Seq<bool>, fin: bool, i: int, j: int)
+        requires fa_text_ok(ls, cr, fin), fa_rec_at(ls, i, j)
+        ensures fa_bnd(full(ls, cr, fin), off(ls, cr, fin, i)) == (if j < ls.len() { off(ls, cr, fin, j) } else { full(ls, cr, fin).len() as int }),
+                fa_lines(full(ls, cr, fin), off(ls, cr, fin, i)) == Seq::new((j - i) as nat, |t: int| line_end(ls, cr, fin, i + t)),
+    {
+        let f = full(ls, cr, fin);
+        let p = off(ls, cr, fin, i);
+        let n = ls.len() as int;
+        lemma_full_len(ls, cr, fin);
+        lemma_fa_bnd_lines(ls, cr, fin, i, j);
+        let want = Seq::new((j - i) as nat, |t: int| line_end(ls, cr, fin, i + t));
+        if j < n {
+            lemma_line_rules(ls, cr, fin, j);
+            lemma_lfs_lines(ls, cr, fin, i, j);
+            assert(fa_lines(f, p) =~= want);
+        } else {
+            lemma_line_rules(ls, cr, fin, n - 1);
+            lemma_line_at(ls, cr, fin, n - 1);
+            let o = off(ls, cr, fin, n - 1);
+            lemma_text_prefix(ls, cr, fin, i, n - 1);
+            lemma_lfs_lines(ls, cr, fin, i, n - 1);
+            lemma_nl_bounds(f, o);
+            if fin {
+                let e = f.len() - 1;
+                assert(f[e] == 10u8);
+                lemma_lfs_skip(f, p, o, e);
+                assert(fa_lines(f, p) =~= want);
+            } else {
+                let e = f.len() as int;
+                assert(f[e - 1] != 10u8) by {
+                    let last = ls[n - 1];
+                    assert(f.subrange(o, o + last.len())[last.len() - 1] == f[e - 1]);
+                }
+                lemma_lfs_skip(f, p, o, e);
+                assert(fa_lines(f, p) =~= want);
+            }
+        }
+    }
+
+    /// the record on lines [i, j): boundary, line ends, header, sequence lines and line number as the rules give them
+    pub proof fn lemma_fasta_text(ls: Seq<Seq<u8>>, cr: Seq<bool>, fin: bool, i: int, j: int)
+        requires fa_text_ok(ls, cr, fin), fa_rec_at(ls, i, j)
+        ensures
+            [C12,C01|lemma.fasta_text.boundary] fa_bnd(full(ls, cr, fin), off(ls, cr, fin, i)) == (if j < ls.len() { off(ls, cr, fin, j) } else { full(ls, cr, fin).len() as int }),
+            [C12,C01|lemma.fasta_text.line_ends] fa_lines(full(ls, cr, fin), off(ls, cr, fin, i)) == Seq::new((j - i) as nat, |t: int| line_end(ls, cr, fin, i + t)),
+            [C12,C01|lemma.fasta_text.record_is_read_back] fa_rec_head(full(ls, cr, fin), off(ls, cr, fin, i)) == ls[i].subrange(1, ls[i].len() as int)
+                && fa_rec_lines(full(ls, cr, fin), off(ls, cr, fin, i)) == ls.subrange(i + 1, j)
+                && full(ls, cr, fin)[off(ls, cr, fin, i)] == 62u8,
+            [C12,C17|lemma.fasta_text.line_number] true_line(full(ls, cr, fin), off(ls, cr, fin, i)) == i + 1,
+    {
+        let f = full(ls, cr, fin);
+        let p = off(ls, cr, fin, i);
+        lemma_fa_line_ends(ls, cr, fin, i, j);
+        lemma_line_rules(ls, cr, fin, i);
+        // ---- header: the line without '>'
+        let l0 = fa_lines(f, p)[0];
+        assert(l0 == nl(f, p));
+        let raw0 = f.subrange(p, l0);
+        assert(raw0[0] == f[p]);
+        lemma_trim_drop_first(raw0);
+        assert(raw0.subrange(1, raw0.len() as int) =~= f.subrange(p + 1, l0));
+        // ---- sequence lines
+        assert forall|t: int| 0 <= t < j - i - 1 implies #[trigger] fa_rec_lines(f, p)[t] == ls[i + 1 + t] by {
+            lemma_line_rules(ls, cr, fin, i + t);
+            lemma_line_rules(ls, cr, fin, i + t + 1);
+            assert(fa_lines(f, p)[t] + 1 == off(ls, cr, fin, i + t + 1));
+            assert(fa_lines(f, p)[t + 1] == nl(f, off(ls, cr, fin, i + t + 1)));
+        }
+        assert(fa_rec_lines(f, p) =~= ls.subrange(i + 1, j));
+    }
+
+    /// header lines hs[0] < hs[1] < ..: only empty lines before the first, and every line in between belongs to a record
+    pub open spec fn fa_recs(ls: Seq<Seq<u8>>, hs: Seq<int>) -> bool {
+        &&& hs.len() >= 1 && 0 <= hs[0]
+        &&& forall|m: int| 0 <= m < hs[0] ==> (#[trigger] ls[m]).len() == 0
+        &&& forall|r: int| 0 <= r < hs.len() ==> fa_rec_at(ls, #[trigger] hs[r], if r + 1 < hs.len() { hs[r + 1] } else { ls.len() as int })
+    }
+
+    /// leading blank lines are skipped: the first record starts at the first header line
+    proof fn lemma_fnb_lines(ls: Seq<Seq<u8>>, cr: Seq<bool>, fin: bool, m: int, h: int)
+        requires lines_ok(ls, cr, fin), 0 <= m <= h < ls.len(), ls[h].len() > 0, forall|x: int| m <= x < h ==> (#[trigger] ls[x]).len() == 0
+        ensures first_nonblank(full(ls, cr, fin), off(ls, cr, fin, m)) == off(ls, cr, fin, h)
+        decreases h - m
+    {
+        let f = full(ls, cr, fin);
+        let o = off(ls, cr, fin, m);
+        lemma_line_rules(ls, cr, fin, m);
+        lemma_line_at(ls, cr, fin, h);
+        lemma_text_prefix(ls, cr, fin, m, h);
+        if m < h {
+            assert(blank(f.subrange(o, nl(f, o))));
+            lemma_fnb_lines(ls, cr, fin, m + 1, h);
+        } else {
+            assert(!blank(f.subrange(o, nl(f, o))));
+        }
+    }
+
+    /// the r-th record of the stream starts at the r-th header line; after the last one the stream ends
+    pub proof fn lemma_fasta_stream(ls: Seq<Seq<u8>>, cr: Seq<bool>, fin: bool, hs: Seq<int>, r: int)
+        requires fa_text_ok(ls, cr, fin), fa_recs(ls, hs), 0 <= r < hs.len()
+        ensures
+            [C12,C01|lemma.fasta_stream.first_record] first_nonblank(full(ls, cr, fin), 0) == off(ls, cr, fin, hs[0]),
+            [C12,C01|lemma.fasta_stream.record_r] fa_start(full(ls, cr, fin), off(ls, cr, fin, hs[0]), r) == off(ls, cr, fin, hs[r]),
+            [C12,C01|lemma.fasta_stream.end] r + 1 == hs.len() ==> fa_start(full(ls, cr, fin), off(ls, cr, fin, hs[0]), r + 1) == full(ls, cr, fin).len(),
+        decreases r
+    {
+        let f = full(ls, cr, fin);
+        let p0 = off(ls, cr, fin, hs[0]);
+        let n = ls.len() as int;
+        assert(fa_rec_at(ls, hs[0], if 1 < hs.len() { hs[1] } else { n }));
+        assert(off(ls, cr, fin, 0) == 0);
+        lemma_fnb_lines(ls, cr, fin, 0, hs[0]);
+        if r > 0 {
+            lemma_fasta_stream(ls, cr, fin, hs, r - 1);
+            assert(fa_rec_at(ls, hs[r - 1], hs[r]));
+            lemma_fa_bnd_lines(ls, cr, fin, hs[r - 1], hs[r]);
+            assert(fa_start(f, p0, r) == fa_bnd(f, fa_start(f, p0, r - 1)));
+        }
+        if r + 1 == hs.len() {
+            assert(fa_rec_at(ls, hs[r], n));
+            lemma_fa_bnd_lines(ls, cr, fin, hs[r], n);
+            assert(fa_start(f, p0, r + 1) == fa_bnd(f, fa_start(f, p0, r)));
+        }
+    }
+
+    /// C12, FASTA, in one statement: two texts of the same lines with different endings are read as the same records at the same lines
+    pub proof fn lemma_fasta_endings_agree(ls: Seq<Seq<u8>>, cr1: Seq<bool>, fin1: bool, cr2: Seq<bool>, fin2: bool, hs: Seq<int>, r: int)
+        requires fa_text_ok(ls, cr1, fin1), fa_text_ok(ls, cr2, fin2), fa_recs(ls, hs), 0 <= r < hs.len()
+        ensures
+            [C12|lemma.fasta_endings.same_record] ({
+                let (f1, f2) = (full(ls, cr1, fin1), full(ls, cr2, fin2));
+                let (p1, p2) = (fa_start(f1, first_nonblank(f1, 0), r), fa_start(f2, first_nonblank(f2, 0), r));
+                fa_rec_head(f1, p1) == fa_rec_head(f2, p2) && fa_rec_lines(f1, p1) == fa_rec_lines(f2, p2) && true_line(f1, p1) == true_line(f2, p2)
+                && f1[p1] == 62u8 && f2[p2] == 62u8
+            }),
+    {
+        lemma_fasta_stream(ls, cr1, fin1, hs, r);
+        lemma_fasta_stream(ls, cr2, fin2, hs, r);
+        let j = if r + 1 < hs.len() { hs[r + 1] } else { ls.len() as int };
+        lemma_fasta_text(ls, cr1, fin1, hs[r], j);
+        lemma_fasta_text(ls, cr2, fin2, hs[r], j);
+    }
+
+
+    // ---------------------------------------------------------------------------------------------
+    // C10 (FASTA): what the writer contracts say is written - fa_head_r(h) followed by the sequence on one line or by
+    // wrap_lines(seq, w) - is the LF text of a header line plus the sequence lines, record after record, so by
+    // lemma_fasta_text it is read back as exactly that header and those lines; wrapped lines have the requested width
+    // ---------------------------------------------------------------------------------------------
+    /// lines, each followed by LF
+    pub open spec fn ltext(ls: Seq<Seq<u8>>, n: int) -> Seq<u8>
+        decreases n
+    {
+        if n <= 0 { Seq::<u8>::empty() } else { ltext(ls, n - 1) + ls[n - 1] + seq![10u8] }
+    }
+    pub open spec fn falses(n: nat) -> Seq<bool> { Seq::new(n, |i: int| false) }
+
+    proof fn lemma_ltext_is_text(ls: Seq<Seq<u8>>, n: int)
+        requires 0 <= n <= ls.len()
+        ensures ltext(ls, n) == text(ls, falses(ls.len()), true, n)
+        decreases n
+    {
+        if n > 0 {
+            lemma_ltext_is_text(ls, n - 1);
+            assert(term(false, true) =~= seq![10u8]);
+        }
+    }
+    proof fn lemma_ltext_prefix(a: Seq<Seq<u8>>, b: Seq<Seq<u8>>, n: int)
+        requires 0 <= n <= a.len()
+        ensures ltext(a + b, n) == ltext(a, n)
+        decreases n
+    {
+        if n > 0 { lemma_ltext_prefix(a, b, n - 1); assert((a + b)[n - 1] == a[n - 1]); }
+    }
+    proof fn lemma_ltext_append(a: Seq<Seq<u8>>, b: Seq<Seq<u8>>, n: int)
+        requires 0 <= n <= b.len()
+        ensures ltext(a + b, a.len() + n) == ltext(a, a.len() as int) + ltext(b, n)
+        decreases n
+    {
+        if n == 0 {
+            lemma_ltext_prefix(a, b, a.len() as int);
+            assert(ltext(a, a.len() as int) + ltext(b, 0) =~= ltext(a, a.len() as int));
+        } else {
+            lemma_ltext_append(a, b, n - 1);
+            assert((a + b)[a.len() + n - 1] == b[n - 1]);
+            assert(ltext(a, a.len() as int) + ltext(b, n - 1) + b[n - 1] + seq![10u8] =~= ltext(a, a.len() as int) + (ltext(b, n - 1) + b[n - 1] + seq![10u8]));
+        }
+    }
+
+    /// one record as written: header and the sequence lines
+    pub struct FaRec { pub head: Seq<u8>, pub body: Seq<Seq<u8>> }
+    pub open spec fn fa_lines_of(r: FaRec) -> Seq<Seq<u8>> { seq![seq![62u8] + r.head] + r.body }
+    pub open spec fn fa_render_rec(r: FaRec) -> Seq<u8> { fa_head_r(r.head) + ltext(r.body, r.body.len() as int) }
+    pub open spec fn fa_all_lines(rs: Seq<FaRec>, n: int) -> Seq<Seq<u8>>
+        decreases n
+    {
+        if n <= 0 { Seq::<Seq<u8>>::empty() } else { fa_all_lines(rs, n - 1) + fa_lines_of(rs[n - 1]) }
+    }
+    pub open spec fn fa_render_recs(rs: Seq<FaRec>, n: int) -> Seq<u8>
+        decreases n
+    {
+        if n <= 0 { Seq::<u8>::empty() } else { fa_render_recs(rs, n - 1) + fa_render_rec(rs[n - 1]) }
+    }
+    /// restrictions of the property: header without LF and not ending in CR; sequence lines without LF, not ending in CR, not starting with '>'
+    pub open spec fn fa_fields_ok(rs: Seq<FaRec>) -> bool {
+        forall|k: int| 0 <= k < rs.len() ==> {
+            let r = #[trigger] rs[k];
+            &&& (forall|j: int| 0 <= j < r.head.len() ==> r.head[j] != 10u8) && !ends_cr(seq![62u8] + r.head)
+            &&& forall|t: int| 0 <= t < r.body.len() ==> !hdr(#[trigger] r.body[t]) && !ends_cr(r.body[t])
+                    && (forall|j: int| 0 <= j < r.body[t].len() ==> r.body[t][j] != 10u8)
+        }
+    }
+
+    proof fn lemma_render_rec_is_ltext(r: FaRec)
+        ensures fa_render_rec(r) == ltext(fa_lines_of(r), fa_lines_of(r).len() as int)
+    {
+        let one = seq![seq![62u8] + r.head];
+        assert(ltext(one, 1) =~= fa_head_r(r.head)) by { assert(ltext(one, 0) =~= Seq::<u8>::empty()); }
+        lemma_ltext_append(one, r.body, r.body.len() as int);
+    }
+    proof fn lemma_render_recs_is_ltext(rs: Seq<FaRec>, n: int)
+        requires 0 <= n <= rs.len()
+        ensures fa_render_recs(rs, n) == ltext(fa_all_lines(rs, n), fa_all_lines(rs, n).len() as int)
+        decreases n
+    {
+        if n > 0 {
+            lemma_render_recs_is_ltext(rs, n - 1);
+            lemma_render_rec_is_ltext(rs[n - 1]);
+            let (a, b) = (fa_all_lines(rs, n - 1), fa_lines_of(rs[n - 1]));
+            lemma_ltext_append(a, b, b.len() as int);
+        }
+    }
+    /// lines of the first n records: the first m records' lines are a prefix
+    proof fn lemma_all_lines_prefix(rs: Seq<FaRec>, m: int, n: int)
+        requires 0 <= m <= n <= rs.len()
+        ensures fa_all_lines(rs, m).len() <= fa_all_lines(rs, n).len(),
+                fa_all_lines(rs, n).subrange(0, fa_all_lines(rs, m).len() as int) == fa_all_lines(rs, m)
+        decreases n - m
+    {
+        if m < n {
+            lemma_all_lines_prefix(rs, m, n - 1);
+            let (a, b) = (fa_all_lines(rs, n - 1), fa_lines_of(rs[n - 1]));
+            assert((a + b).subrange(0, fa_all_lines(rs, m).len() as int) =~= a.subrange(0, fa_all_lines(rs, m).len() as int));
+        } else {
+            assert(fa_all_lines(rs, n).subrange(0, fa_all_lines(rs, m).len() as int) =~= fa_all_lines(rs, m));
+        }
+    }
+    /// where record k sits in the line list of all records, and that it is a record there
+    proof fn lemma_rec_in_all_lines(rs: Seq<FaRec>, k: int)
+        requires fa_fields_ok(rs), 0 <= k < rs.len()
+        ensures ({
+            let ls = fa_all_lines(rs, rs.len() as int); let (i, j) = (fa_all_lines(rs, k).len() as int, fa_all_lines(rs, k + 1).len() as int);
+            &&& j == i + 1 + rs[k].body.len() && j <= ls.len() && ls[i] == seq![62u8] + rs[k].head && ls.subrange(i + 1, j) == rs[k].body
+            &&& fa_rec_at(ls, i, j)
+        })
+    {
+        let n = rs.len() as int;
+        let ls = fa_all_lines(rs, n);
+        let (i, j) = (fa_all_lines(rs, k).len() as int, fa_all_lines(rs, k + 1).len() as int);
+        lemma_all_lines_prefix(rs, k + 1, n);
+        let a = fa_all_lines(rs, k); let b = fa_lines_of(rs[k]);
+        assert(fa_all_lines(rs, k + 1) == a + b);
+        assert forall|x: int| 0 <= x < b.len() implies ls[i + x] == b[x] by {
+            assert(ls.subrange(0, j)[i + x] == ls[i + x]);
+            assert((a + b)[i + x] == b[x]);
+        }
+        assert(b[0] == seq![62u8] + rs[k].head);
+        assert(ls.subrange(i + 1, j) =~= rs[k].body) by {
+            assert forall|x: int| 0 <= x < rs[k].body.len() implies ls.subrange(i + 1, j)[x] == rs[k].body[x] by { assert(b[x + 1] == rs[k].body[x]); }
+        }
+        assert(hdr(ls[i])) by { assert(ls[i][0] == 62u8); }
+        assert forall|m: int| i < m < j implies !hdr(#[trigger] ls[m]) by { assert(ls[m] == b[m - i]); assert(b[m - i] == rs[k].body[m - i - 1]); }
+        if j < ls.len() {
+            lemma_all_lines_prefix(rs, k + 2, n);
+            let b2 = fa_lines_of(rs[k + 1]);
+            assert(fa_all_lines(rs, k + 2) == fa_all_lines(rs, k + 1) + b2);
+            assert(ls.subrange(0, fa_all_lines(rs, k + 2).len() as int)[j] == ls[j]);
+            assert((fa_all_lines(rs, k + 1) + b2)[j] == b2[0]);
+            assert(b2[0][0] == 62u8);
+        } else if k + 1 < n {
+            lemma_all_lines_prefix(rs, k + 2, n);
+            assert(fa_all_lines(rs, k + 2) == fa_all_lines(rs, k + 1) + fa_lines_of(rs[k + 1]));
+        }
+    }
+    proof fn lemma_all_lines_ok(rs: Seq<FaRec>)
+        requires fa_fields_ok(rs)
+        ensures fa_text_ok(fa_all_lines(rs, rs.len() as int), falses(fa_all_lines(rs, rs.len() as int).len()), true)
+    {
+        let ls = fa_all_lines(rs, rs.len() as int);
+        lemma_lines_of_all(rs, rs.len() as int);
+    }
+    /// every line of the list is a header line or a body line of some record
+    proof fn lemma_lines_of_all(rs: Seq<FaRec>, n: int)
+        requires fa_fields_ok(rs), 0 <= n <= rs.len()
+        ensures forall|x: int| 0 <= x < fa_all_lines(rs, n).len() ==> {
+                    let l = #[trigger] fa_all_lines(rs, n)[x];
+                    (forall|j: int| 0 <= j < l.len() ==> l[j] != 10u8) && (l.len() > 0 ==> l[l.len() - 1] != 13u8)
+                }
+        decreases n
+    {
+        if n > 0 {
+            lemma_lines_of_all(rs, n - 1);
+            let (a, b) = (fa_all_lines(rs, n - 1), fa_lines_of(rs[n - 1]));
+            let r = rs[n - 1];
+            assert forall|x: int| 0 <= x < (a + b).len() implies ({
+                    let l = #[trigger] (a + b)[x];
+                    (forall|j: int| 0 <= j < l.len() ==> l[j] != 10u8) && (l.len() > 0 ==> l[l.len() - 1] != 13u8)
+                }) by {
+                if x >= a.len() {
+                    let y = x - a.len();
+                    assert((a + b)[x] == b[y]);
+                    if y == 0 {
+                        let l = seq![62u8] + r.head;
+                        assert forall|j: int| 0 <= j < l.len() implies l[j] != 10u8 by { if j > 0 { assert(l[j] == r.head[j - 1]); } }
+                    } else {
+                        assert(b[y] == r.body[y - 1]);
+                    }
+                } else { assert((a + b)[x] == a[x]); }
+            }
+        }
+    }
+
+    /// header line index of record r in the line list of all records
+    pub open spec fn fa_hs(rs: Seq<FaRec>) -> Seq<int> { Seq::new(rs.len(), |r: int| fa_all_lines(rs, r).len() as int) }
+    proof fn lemma_hs_ok(rs: Seq<FaRec>)
+        requires fa_fields_ok(rs), rs.len() >= 1
+        ensures fa_recs(fa_all_lines(rs, rs.len() as int), fa_hs(rs))
+    {
+        let ls = fa_all_lines(rs, rs.len() as int);
+        let hs = fa_hs(rs);
+        assert forall|r: int| 0 <= r < hs.len() implies fa_rec_at(ls, #[trigger] hs[r], if r + 1 < hs.len() { hs[r + 1] } else { ls.len() as int }) by {
+            lemma_rec_in_all_lines(rs, r);
+        }
+        assert(hs[0] == 0);
+    }
+    proof fn lemma_render_is_full(rs: Seq<FaRec>)
+        ensures fa_render_recs(rs, rs.len() as int) == full(fa_all_lines(rs, rs.len() as int), falses(fa_all_lines(rs, rs.len() as int).len()), true)
+    {
+        let ls = fa_all_lines(rs, rs.len() as int);
+        lemma_render_recs_is_ltext(rs, rs.len() as int);
+        lemma_ltext_is_text(ls, ls.len() as int);
+    }
+
+    /// written records are read back: the k-th record of the rendered text has exactly the header and the sequence lines written
+    pub proof fn lemma_fasta_roundtrip(rs: Seq<FaRec>, k: int)
+        requires fa_fields_ok(rs), 0 <= k < rs.len()
+        ensures
+            [C10|lemma.fasta_roundtrip] ({
+                let f = fa_render_recs(rs, rs.len() as int); let p = fa_start(f, first_nonblank(f, 0), k);
+                f[p] == 62u8 && fa_rec_head(f, p) == rs[k].head && fa_rec_lines(f, p) == rs[k].body
+                && (k + 1 == rs.len() ==> fa_bnd(f, p) == f.len())
+            }),
+    {
+        let n = rs.len() as int;
+        let ls = fa_all_lines(rs, n);
+        let cr = falses(ls.len());
+        let hs = fa_hs(rs);
+        lemma_render_is_full(rs);
+        lemma_all_lines_ok(rs);
+        lemma_hs_ok(rs);
+        lemma_fasta_stream(ls, cr, true, hs, k);
+        lemma_rec_in_all_lines(rs, k);
+        let j = fa_all_lines(rs, k + 1).len() as int;
+        assert(hs[k] == fa_all_lines(rs, k).len());
+        lemma_fasta_text(ls, cr, true, hs[k], j);
+        assert((seq![62u8] + rs[k].head).subrange(1, rs[k].head.len() as int + 1) =~= rs[k].head);
+    }
+
+    // ---- the two shapes of sequence lines the writers produce ------------------------------------------------------------
+    /// the sequence cut into pieces of w bytes (the last one 1..=w bytes); no piece for an empty sequence
+    pub open spec fn chunks(sq: Seq<u8>, w: int) -> Seq<Seq<u8>>
+        decreases sq.len()
+    {
+        if w <= 0 || sq.len() == 0 { Seq::<Seq<u8>>::empty() }
+        else if sq.len() <= w { seq![sq] }
+        else { seq![sq.subrange(0, w)] + chunks(sq.subrange(w, sq.len() as int), w) }
+    }
+    proof fn lemma_ltext_cons(x: Seq<u8>, rest: Seq<Seq<u8>>)
+        ensures ltext(seq![x] + rest, rest.len() as int + 1) == x + seq![10u8] + ltext(rest, rest.len() as int)
+    {
+        let one = seq![x];
+        lemma_ltext_append(one, rest, rest.len() as int);
+        assert(ltext(one, 1) =~= x + seq![10u8]) by { assert(ltext(one, 0) =~= Seq::<u8>::empty()); }
+    }
+    /// wrapped output = the chunks as lines; they concatenate to the sequence and have the requested widths
+    pub proof fn lemma_wrap_is_chunks(sq: Seq<u8>, w: int)
+        requires w >= 1
+        ensures
+            [C10|lemma.wrap.lines_are_chunks] wrap_lines(sq, w) == ltext(chunks(sq, w), chunks(sq, w).len() as int),
+            [C10|lemma.wrap.chunks_concatenate_to_the_sequence] concat(chunks(sq, w)) == sq,
+            [C10|lemma.wrap.widths] forall|i: int| 0 <= i < chunks(sq, w).len() ==> 1 <= (#[trigger] chunks(sq, w)[i]).len() <= w
+                && (i + 1 < chunks(sq, w).len() ==> chunks(sq, w)[i].len() == w),
+        decreases sq.len()
+    {
+        let c = chunks(sq, w);
+        if sq.len() == 0 {
+            assert(concat(c) =~= sq);
+        } else if sq.len() <= w {
+            assert(ltext(c, 1) =~= sq + seq![10u8]) by { assert(ltext(c, 0) =~= Seq::<u8>::empty()); }
+            assert(concat(c) =~= sq) by { assert(c.drop_last() =~= Seq::<Seq<u8>>::empty()); assert(concat(c.drop_last()) =~= Seq::<u8>::empty()); }
+        } else {
+            let (x, rest) = (sq.subrange(0, w), sq.subrange(w, sq.len() as int));
+            lemma_wrap_is_chunks(rest, w);
+            let cr = chunks(rest, w);
+            lemma_ltext_cons(x, cr);
+            lemma_concat_cons(x, cr);
+            assert(x + rest =~= sq);
+            assert forall|i: int| 0 <= i < c.len() implies 1 <= (#[trigger] c[i]).len() <= w && (i + 1 < c.len() ==> c[i].len() == w) by {
+                if i > 0 { assert(c[i] == cr[i - 1]); }
+            }
+            assert(cr.len() >= 1);
+        }
+    }
+    proof fn lemma_concat_cons(x: Seq<u8>, rest: Seq<Seq<u8>>)
+        ensures concat(seq![x] + rest) == x + concat(rest)
+        decreases rest.len()
+    {
+        let all = seq![x] + rest;
+        if rest.len() == 0 {
+            assert(all.drop_last() =~= Seq::<Seq<u8>>::empty());
+            assert(concat(all) =~= x + concat(rest));
+        } else {
+            assert(all.drop_last() =~= seq![x] + rest.drop_last());
+            lemma_concat_cons(x, rest.drop_last());
+            assert(all.last() == rest.last());
+            assert(concat(rest) == concat(rest.drop_last()) + rest.last());
+            assert(concat(all) == concat(all.drop_last()) + all.last());
+            assert(concat(all) =~= x + concat(rest));
+        }
+    }
+    /// fa_render / fa_head_r + wrap_lines are renderings of a header plus lines
+    pub proof fn lemma_render_shapes(h: Seq<u8>, sq: Seq<u8>, w: int)
+        requires w >= 1
+        ensures
+            [C10|lemma.render.plain_is_one_line] fa_render(h, sq) == fa_render_rec(FaRec { head: h, body: seq![sq] }),
+            [C10|lemma.render.wrapped_is_chunk_lines] fa_head_r(h) + wrap_lines(sq, w) == fa_render_rec(FaRec { head: h, body: chunks(sq, w) }),
+    {
+        let one = seq![sq];
+        assert(ltext(one, 1) =~= sq + seq![10u8]) by { assert(ltext(one, 0) =~= Seq::<u8>::empty()); }
+        assert(fa_render(h, sq) =~= fa_head_r(h) + (sq + seq![10u8]));
+        lemma_wrap_is_chunks(sq, w);
     }
 
     } // verus!
